@@ -22,6 +22,7 @@ import (
 	v1 "k8s.io/api/core/v1"
 	schedulingv1 "k8s.io/api/scheduling/v1"
 	"k8s.io/apimachinery/pkg/api/equality"
+	"k8s.io/apimachinery/pkg/api/resource"
 	metav1 "k8s.io/apimachinery/pkg/apis/meta/v1"
 	"k8s.io/apimachinery/pkg/runtime/schema"
 
@@ -139,6 +140,32 @@ func applyMutationToModel(w *World, m Mutation) {
 				w.Nodes[i].Unschedulable = m.Value == "true"
 			}
 		}
+	case "node-cpu", "node-gpus":
+		v, _ := strconv.Atoi(m.Value)
+		for i := range w.Nodes {
+			if w.Nodes[i].Name != m.Target {
+				continue
+			}
+			if m.Kind == "node-cpu" {
+				w.Nodes[i].CPU = v
+			} else {
+				w.Nodes[i].GPUs = v
+			}
+		}
+	case "pod-finish":
+		for gi := range w.Groups {
+			for pi := range w.Groups[gi].Pods {
+				if p := &w.Groups[gi].Pods[pi]; p.Name == m.Target && p.State == Running {
+					p.State = Succeeded
+				}
+			}
+		}
+	case "pg-queue":
+		for i := range w.Groups {
+			if w.Groups[i].Name == m.Target {
+				w.Groups[i].Queue = m.Value
+			}
+		}
 	}
 }
 
@@ -189,13 +216,40 @@ func ApplyMutations(s *Store, sc *CycleScript) {
 				n.Spec.Resources.GPU.OverQuotaWeight = f
 			}
 			_ = s.Kai.Tracker().Update(queueGVR, n, "")
-		case "node-label", "node-unschedulable":
+		case "pod-finish":
+			// the containers of a running pod exit successfully (only pods the scheduler has not touched meanwhile)
+			cur, err := s.Kube.CoreV1().Pods(Namespace).Get(ctx, m.Target, metav1.GetOptions{})
+			if err != nil || cur.Status.Phase != v1.PodRunning || cur.DeletionTimestamp != nil {
+				continue
+			}
+			n := cur.DeepCopy()
+			n.Status.Phase = v1.PodSucceeded
+			_ = s.Kube.Tracker().Update(podGVR, n, Namespace)
+		case "pg-queue":
+			cur, err := s.Kai.SchedulingV2alpha2().PodGroups(Namespace).Get(ctx, m.Target, metav1.GetOptions{})
+			if err != nil {
+				continue
+			}
+			n := cur.DeepCopy()
+			n.Spec.Queue = m.Value
+			_ = s.Kai.Tracker().Update(podGroupGVR, n, Namespace)
+		case "node-label", "node-unschedulable", "node-cpu", "node-gpus":
 			cur, err := s.Kube.CoreV1().Nodes().Get(ctx, m.Target, metav1.GetOptions{})
 			if err != nil {
 				continue
 			}
 			n := cur.DeepCopy()
-			if m.Kind == "node-unschedulable" {
+			if m.Kind == "node-cpu" {
+				v, _ := strconv.Atoi(m.Value)
+				q := *resource.NewMilliQuantity(int64(v), resource.DecimalSI)
+				n.Status.Allocatable[v1.ResourceCPU], n.Status.Capacity[v1.ResourceCPU] = q, q
+			} else if m.Kind == "node-gpus" {
+				v, _ := strconv.Atoi(m.Value)
+				if _, has := n.Status.Allocatable[GPUResource]; has {
+					n.Status.Allocatable[GPUResource], n.Status.Capacity[GPUResource] = qty(int64(v)), qty(int64(v))
+					n.Labels["nvidia.com/gpu.count"] = m.Value
+				}
+			} else if m.Kind == "node-unschedulable" {
 				n.Spec.Unschedulable = m.Value == "true"
 			} else {
 				if n.Labels == nil {
